@@ -93,6 +93,18 @@ def stage_decode(enc, val):
     return V(str(s))  # "to replace the usual str function ... the decode filter can be substituted"
 
 
+_CODE = {}
+
+
+def _ev(src, env):
+    c = _CODE.get(src)
+    if c is None:
+        if len(_CODE) > 20000:
+            _CODE.clear()
+        c = _CODE[src] = compile("(\n" + src + "\n)", "<c02>", "eval")
+    return eval(c, env)
+
+
 def apply_stages(stages, value, env, counter=None):
     val = value if isinstance(value, V) else V(value)
     for src in stages:
@@ -106,7 +118,7 @@ def apply_stages(stages, value, env, counter=None):
         if m:
             val = stage_decode(m.group(1), val)
             continue
-        f = eval(t, env)  # "any other filter name or call denotes the callable of that name visible to the template"
+        f = _ev(t, env)  # "any other filter name or call denotes the callable of that name visible to the template"
         val = V(f(val.v))
     return val
 
@@ -145,7 +157,7 @@ def flist(filters, sep=", "):
     return sep.join(filters)
 
 
-USER_NAMES = "f1, f2, g, ns"
+USER_NAMES = "f1, f2, g, ns, boom"
 MOD_NAMES = "f3, f4, f5"
 
 
@@ -226,7 +238,7 @@ def context_for(prog, vname):
     """JSON form of the render context ("@helper:<name>" = object of mc.c02_env)"""
     ctx = {}
     if prog.get("bind", "ctx") == "ctx":
-        for n in ("f1", "f2", "g", "ns"):
+        for n in ("f1", "f2", "g", "ns", "boom"):
             ctx[n] = "@helper:" + n
     if prog.get("decoy"):
         for n in ("h", "x", "u", "trim", "entity", "n", "unicode", "decode"):
@@ -258,7 +270,7 @@ class Interp:
         for n in ("f3", "f4", "f5"):
             env[n] = getattr(c02_env, n)
         if prog.get("bind", "ctx") != "ctx":
-            for n in ("f1", "f2", "g", "ns"):
+            for n in ("f1", "f2", "g", "ns", "boom"):
                 env[n] = getattr(c02_env, n)
         env.update(ctx)
         self.env = env
@@ -309,7 +321,7 @@ class Interp:
                 self.write(nd[1])
             elif k == "expr":
                 _, src, filters, raw = nd
-                value = eval("(\n" + src + "\n)", env)
+                value = _ev(src, env)
                 st = expression_stages(filters, self.prog.get("P"), self.prog.get("D"))
                 self.write(apply_stages(st, value, env, self.steps).v)
             elif k == "def":
@@ -330,7 +342,7 @@ class Interp:
                     return ""
 
                 self._pending = _Caller(body_fn)
-                r = eval(name + "()", env)
+                r = _ev(name + "()", env)
                 # what <%call> does with the callee's return value is not fixed by the statement: either it is
                 # written as it is, or expr= is an expression substitution with an empty local filter list
                 if self.call_filtered:
